@@ -156,6 +156,8 @@ def dict__(items, engine):
     """
     result = {}
     for t in items:
+        if not isinstance(t, utils.IterableType):
+            raise TypeError('dict items must be [key, value] collections')
         it = iter(t)
         key = next(it)
         value = next(it)
